@@ -89,6 +89,8 @@ impl T {
             order: vec![],
             first: 0,
             skip: 0,
+            first_var: None,
+            skip_var: None,
             paging: None,
             nullable: vec![],
         }
